@@ -192,6 +192,17 @@ def dag_bowtie(rng, wmax=9, float_w=False):
             if x not in nodes:
                 nodes.append(x)
     g = {"kind": "dag", "nodes": nodes, "edges": _edges_json(flow, order), "routes": None, "weights": None}
+    # candidate "mismatched pair" constraints: an edge into a hub and an edge out of it with different flow
+    # values - no decomposition with few paths sends one path through both completely
+    pairs = []
+    for h in hubs:
+        ins = [e for e in order if e[1] == h]
+        outs = [e for e in order if e[0] == h]
+        for a in ins:
+            for b in outs:
+                if flow[a] != flow[b]:
+                    pairs.append([list(a), list(b)])
+    g["hub_pairs"] = pairs
     if not _conserving(g) or len(g["edges"]) > 10:
         return dag_layered(rng, wmax=wmax, float_w=float_w)
     if float_w:
